@@ -143,6 +143,8 @@ class Enc:
         out = self.out
         if out.get("errors"):
             raise Unsupported("driver errors: %s" % out["errors"][:1])
+        if any("stagest" in fl for fl in self.case.get("devs", [])):
+            raise Unsupported("a device whose stage()/unstage() returns a Status (the model's stage answers with a device list)")
         msgs = out["msgs"]
         tapes = []
         for tid, tape in sorted(out["tapes"].items(), key=lambda kv: int(kv[0])):
